@@ -46,12 +46,13 @@ def sp_string(v, rng, allow_odd_hex=False):
                 out += rng.choice([b" ", b"\n", b"\r\n", b"\t"])
         return out + b">"
     out = b"("
-    depth_ok = _balanced(v)
+    # balanced parentheses may be written raw, but then all of them (a mix of raw and escaped ones is not balanced as written)
+    depth_ok = _balanced(v) and rng.random() < 0.5
     for i, b in enumerate(v):
         r = rng.random()
         named = {10: b"\\n", 13: b"\\r", 9: b"\\t", 8: b"\\b", 12: b"\\f", 40: b"\\(", 41: b"\\)", 92: b"\\\\"}
         if b in (40, 41):
-            out += bytes([b]) if (depth_ok and r < 0.5) else named[b]
+            out += bytes([b]) if depth_ok else named[b]
         elif b == 92:
             out += named[b] if r < 0.7 else b"\\134"
         elif b in (13,):
@@ -67,7 +68,10 @@ def sp_string(v, rng, allow_odd_hex=False):
         else:
             out += bytes([b])
         if rng.random() < 0.08:
-            out += b"\\" + rng.choice([b"\n", b"\r", b"\r\n"])     # line continuation: ignored
+            # line continuation: ignored.  A continuation ending in CR must not be followed by a raw LF of the value
+            # (backslash CR LF is ONE continuation): then the continuation is spelled with LF
+            raw_lf_next = i + 1 < len(v) and v[i + 1] == 10
+            out += b"\\" + rng.choice([b"\n"] if raw_lf_next else [b"\n", b"\r", b"\r\n"])
     return out + b")"
 
 
